@@ -190,6 +190,44 @@ def o75(ctx):
     if c.op != "lt" or c.args[1] != SC or c.args[0] != sym("thr"):  # strictly above: a voxel equal to the threshold is not a candidate
         ctx.finding(Q2, wh[0].node, "candidates must be the voxels whose score exceeds the threshold (score > threshold)", wh[0].node, m,
                     predicate=tm.show(c)[:120])
+    # every candidate enters the list: a slice taken from the ordering of the candidates (argsort / argpartition of their scores) keeps all of them
+    cuts = {}
+    for e in it.events:
+        if e.fn != Q2:
+            continue
+        for a_ in list(e.args) + list(e.kwargs.values()):
+            try:
+                t_ = to_term(a_)
+            except Exception:  # noqa
+                continue
+            for n in tm.walk(t_):
+                if n.op == "call" and n.args[0] == "getitem" and len(n.args) == 3 and hasattr(n.args[2], "op") and n.args[2].op == "call" \
+                        and n.args[2].args[0] == "slice" and (tm.has_call(n.args[1], "numpy.argsort") or tm.has_call(n.args[1], "argsort")
+                                                               or tm.has_call(n.args[1], "numpy.argpartition")) \
+                        and tm.contains(n.args[1], lambda x: x == c):
+                    cuts.setdefault(n.key(), (n, e))
+    for e in it.events:
+        if e.fn == Q2 and e.kind == "index" and e.name == "slice":
+            b_ = to_term(e.args[0])
+            if (tm.has_call(b_, "numpy.argsort") or tm.has_call(b_, "argsort") or tm.has_call(b_, "numpy.argpartition")) and tm.contains(b_, lambda x: x == c):
+                n_ = call("getitem", b_, to_term(e.args[1]))
+                cuts.setdefault(n_.key(), (n_, e))
+    for n, e in cuts.values():
+        lo, hi, step = n.args[2].args[1:4]
+        ctx.count(1, {"slice of the ordered candidates": tm.show(n.args[2])[:120]})
+        if tm.cval(lo) not in (None, 0) or tm.cval(step) not in (None, 1):
+            ctx.finding(Q2, e.node, "the ordered candidate positions are cut at the front / thinned out: every voxel above the threshold must enter "
+                        "the candidate list", e.node, m, cut=tm.show(n.args[2])[:120])
+            continue
+        if tm.cval(hi) is None and hi.op == "const":
+            continue
+        counts = [x for x in tm.walk(hi) if x.op == "call" and x.args[0] == "nrows"]
+        if not counts:
+            raise Unsupported("the ordered candidates are cut at a bound that is not derived from their number", e.node)
+        if not any(tm.equivalent(hi, x, seed_tag="cut") for x in counts):
+            ctx.finding(Q2, e.node, f"the ordered candidate positions are cut at {tm.show(hi)[:80]}, which is not the number of candidates: the "
+                        "lowest-scoring voxels above the threshold never enter the candidate list, so an isolated one of them is missing among the peaks",
+                        e.node, m)
     # descending processing order
     srt = [e for e in it.events if e.kind == "call" and e.name == "builtins.sorted" and e.fn == Q2]
     ctx.count(1)
@@ -329,4 +367,4 @@ def _obligations():
 
 
 def obligations():
-    return _obligations() + [constructors_obligation(['cryomotl.Motl', 'cryomotl.EmMotl']), labels_obligation("C07"), selectors_obligation("C07"), effects_obligation("C07"), plumbing_obligation("C07"), overrides_obligation("C07"), options_obligation("C07")]
+    return _obligations() + [constructors_obligation(['cryomotl.Motl', 'cryomotl.EmMotl']), labels_obligation("C07"), selectors_obligation("C07"), effects_obligation("C07"), plumbing_obligation("C07"), overrides_obligation("C07"), options_obligation("C07"), handlers_obligation("C07")]
